@@ -615,3 +615,35 @@ Proof.
   intros H. destruct content_excluded_refuted as [fnm [nh [cs [fl [disk [dir [sub [name [isdir [c [Hin [Hs Hf]]]]]]]]]]]].
   rewrite (H fnm nh cs fl disk dir sub name isdir c Hin Hs) in Hf. discriminate.
 Qed.
+
+(** * Which parity files a selection leaves alone (state.c state_filter, last part) *)
+
+(** without -d: the parity files are excluded as soon as -m or any -f is given; -e alone keeps them *)
+Theorem parity_excluded_no_disk_option fnm fl_file missing error pname :
+  parity_excluded fnm fl_file [] missing error pname =
+  missing || (match fl_file with [] => false | _ :: _ => true end).
+Proof. unfold parity_excluded. destruct fl_file, missing, error; reflexivity. Qed.
+
+Corollary parity_excluded_by_missing fnm fl_file error pname :
+  parity_excluded fnm fl_file [] true error pname = true.
+Proof. rewrite parity_excluded_no_disk_option. reflexivity. Qed.
+
+Corollary parity_excluded_by_file_filter fnm f fl_file missing error pname :
+  parity_excluded fnm (f :: fl_file) [] missing error pname = true.
+Proof. rewrite parity_excluded_no_disk_option. apply orb_true_r. Qed.
+
+Corollary parity_kept_without_selection fnm error pname :
+  parity_excluded fnm [] [] false error pname = false.
+Proof. rewrite parity_excluded_no_disk_option. reflexivity. Qed.
+
+(** with -d: a parity file is kept iff one of the -d names matches its name, whatever -f / -m say *)
+Theorem parity_excluded_disk_option fnm fl_file fl_disk missing error pname :
+  Forall (fun f => f_is_disk f = true /\ f_include f = true) fl_disk -> fl_disk <> [] ->
+  parity_excluded fnm fl_file fl_disk missing error pname =
+  negb (existsb (fun f => fnm false (f_pattern f) pname) fl_disk).
+Proof.
+  intros Hall Hne. unfold parity_excluded.
+  destruct fl_disk as [|d fl_disk]; [congruence|].
+  rewrite <- (disk_list_spec fnm (d :: fl_disk) pname [] Hall Hne).
+  destruct fl_file, missing, error; reflexivity.
+Qed.
